@@ -236,7 +236,7 @@ func fieldType(x *Ctx, pkgRel, typ, field string) types.Type {
 	tn := sp.Pkg.Scope().Lookup(typ).(*types.TypeName)
 	st := tn.Type().Underlying().(*types.Struct)
 	for i := 0; i < st.NumFields(); i++ {
-		if st.Field(i).Name() == field {
+		if paths.FieldName(st.Field(i)) == field {
 			return st.Field(i).Type()
 		}
 	}
